@@ -3,7 +3,12 @@
 //! Two (or three) cloned handles live on their own threads (puppets). The schedule steps are
 //!   modify   first time: BEGIN; then UPDATE t SET v = <version> WHERE id = <thread>   (runs to completion)
 //!   capture  COMMIT up to the hook point `commit.captured` (page images copied, file-manager lock released)
-//!   write    COMMIT from there to its return
+//!   submit   from there into the group-commit queue, up to the first `gc.check` of the wait loop (an empty payload returns)
+//!   elect    from `gc.check`: no flush in progress, so the waiter becomes the leader and takes every pending commit;
+//!            parked at `commit.flush.begin`
+//!   flush    the leader writes its batch, completes it and returns
+//!   return   from `gc.check`: the waiter finds its commit completed and returns
+//!   write    (older schedules) submit + elect + flush of a lone committer
 //! All rows live on one table page. After the schedule the directory is copied (process-kill snapshot), reopened
 //! (recovery replays the log) and the rows are read back: a row whose writer's COMMIT returned must carry the
 //! writer's last value.
@@ -36,7 +41,7 @@ fn copy_dir(from: &std::path::Path, to: &std::path::Path) {
 pub fn run(args: &Args) {
     let cases = read_cases(&args.get("in", ""));
     let out = args.get("out", "/dev/stdout");
-    set_park_only(Some(vec!["commit.".to_string()]));
+    set_park_only(Some(vec!["commit.".to_string(), "gc.".to_string()]));
     // schedules are driven one at a time: the hook handler is process wide and the puppets are real threads
     par_run(cases, 1, &out, move |_i, case| {
         let sc = Scratch::new("corder");
@@ -79,11 +84,12 @@ pub fn run(args: &Args) {
         let mut done = vec![];
         let mut ver = 0i64;
         let mut diverged = Value::Null;
+        let mut batch_sizes: Vec<i64> = vec![];
         let mut early = vec![false; nthreads];       // COMMIT returned without reaching the capture point (nothing to log)
         for st in case["hist"].as_array().unwrap() {
             let t = st["t"].as_u64().unwrap() as usize - 1;
             let a = st["a"].as_str().unwrap();
-            if a == "write" && early[t] {
+            if (a == "write" || a == "submit") && early[t] {
                 steps.push(json!({"t": t + 1, "a": a, "r": "already returned"}));
                 continue;
             }
@@ -100,7 +106,17 @@ pub fn run(args: &Args) {
                     pup.step(t, Some(json!({"sqls": sqls})))
                 }
                 "capture" => pup.step(t, Some(json!({"sqls": ["COMMIT"]}))),
-                "write" => pup.step(t, None),
+                "submit" | "elect" | "flush" | "return" => pup.step(t, None),
+                "write" => {
+                    // run to the end through every hook point on the way
+                    let mut r = pup.step(t, None);
+                    let mut n = 0;
+                    while matches!(r, StepResult::AtPoint(..)) && n < 8 {
+                        r = pup.step(t, None);
+                        n += 1;
+                    }
+                    r
+                }
                 _ => StepResult::Done(json!({"harness_error": "unknown step"})),
             };
             let ok = match (&r, a) {
@@ -111,11 +127,22 @@ pub fn run(args: &Args) {
                     done.push(t + 1);
                     true
                 }
-                (StepResult::Done(v), "write") => {
+                (StepResult::Done(v), "write") | (StepResult::Done(v), "flush") | (StepResult::Done(v), "return") => {
                     if v.get("ok").is_some() {
                         done.push(t + 1);
                     }
                     true
+                }
+                (StepResult::AtPoint(n, _), "submit") => n == "gc.check",
+                (StepResult::Done(v), "submit") if v.get("ok").is_some() => {
+                    // nothing to log: COMMIT returned without entering the queue
+                    early[t] = true;
+                    done.push(t + 1);
+                    true
+                }
+                (StepResult::AtPoint(n, a), "elect") => {
+                    batch_sizes.push(a.first().copied().unwrap_or(-1));
+                    n == "commit.flush.begin"
                 }
                 _ => false,
             };
@@ -147,7 +174,7 @@ pub fn run(args: &Args) {
         drop(handles);
         let _ = guarded(move || drop(db));
         vec![json!({"id": case["id"], "steps": steps, "values": values, "done": done, "live": live, "recovered": recovered,
-                    "frames": frames, "diverged": diverged,
+                    "frames": frames, "diverged": diverged, "batch_sizes": batch_sizes,
                     "early": early.iter().enumerate().filter(|(_, e)| **e).map(|(i, _)| i + 1).collect::<Vec<_>>()})]
     });
 }
